@@ -11,6 +11,18 @@ DATA_CARRIERS = ['list_none', 'list_nan', 'tuple_nan', 'ndarray', 'series', 'mas
 TIME_CARRIERS = ['dt64', 'dt64_s', 'epoch_list', 'epoch_array', 'series', 'series_tz', 'dtindex', 'dtindex_tz', 'pydatetime', 'dtindex_s', 'dtindex_ms', 'series_s', 'series_us', 'epoch_series', 'epoch_index', 'timestamp_list']
 
 
+DIAGONAL = [('series', 'series'), ('series', 'dtindex'), ('series', 'series_tz'), ('ndarray', 'dtindex'), ('ndarray', 'epoch_array'),
+            ('tuple_nan', 'epoch_list'), ('list_nan', 'pydatetime'), ('series', 'epoch_series')]
+
+
+def mixed_tests():
+    """tests with two data axes: the two axes in *different* containers"""
+    z = lambda n: [Fr(i) for i in range(n)]
+    yield 'location_test', lambda d1, d2, p: ([data_input('lon', p, d1), data_input('lat', p[::-1], d2)], dict(bbox=[Fr(-10), Fr(-20), Fr(10), Fr(20)], range_max=Fr(5)))
+    yield 'density_inversion_test', lambda d1, d2, p: ([data_input('inp', p, d1), data_input('zinp', p[::-1], d2, values=z(len(p)))], dict(suspect_threshold=Fr(-1), fail_threshold=Fr(-2)))
+    yield 'speed_test', lambda d1, d2, p: ([data_input('lon', p, d1), data_input('lat', p, d2), time_input('tinp', t10(len(p)), 'dt64')], dict(suspect_threshold=Fr(1), fail_threshold=Fr(2)))
+
+
 def tests():
     """name -> builder(data_carrier, time_carrier, pattern) -> (args, kwargs); uses_time"""
     z = lambda n: [Fr(i) for i in range(n)]
@@ -127,6 +139,23 @@ def run(ck):
                 for tc in TIME_CARRIERS[1:]:
                     cx, ox = run_one('list_none', tc)
                     compare(ck, 'C15.time', test, tc, cb, ob, cx, ox)
+                # both axes in containers of the same family at once (a DataFrame's columns, an array with an index): what one
+                # conversion leaves behind (an index, a read-only view, a dtype) meets the other
+                if p == pats[0]:
+                    for dc, tc in DIAGONAL:
+                        cx, ox = run_one(dc, tc)
+                        compare(ck, 'C15.time', test, f'{dc}+{tc}', cb, ob, cx, ox)
+    for test, build in mixed_tests():
+        p = pats[0]
+
+        def run_m(d1, d2):
+            args, kw = build(d1, d2, p)
+            c = Case(test, args, kw, n=len(p), pat={}, meta={'class': f'{d1}+{d2}'}, label=f'{test}({p!r}; first axis={d1}, second axis={d2})')
+            return c, run_case(ck, c, allow_refused=True)
+        cb, ob = run_m('list_none', 'list_none')
+        for d1, d2 in (('list_nan', 'ndarray'), ('ndarray', 'series'), ('series', 'list_none'), ('tuple_nan', 'series'), ('ndarray', 'list_nan')):
+            cx, ox = run_m(d1, d2)
+            compare(ck, 'C15.data', test, f'{d1}+{d2}', cb, ob, cx, ox)
     # irregular sampling on whole minutes, so that coarse datetime64 units can carry the same instants
     tmin = [0, 60, 180, 240, 360, 420]
     coarse = {
@@ -249,12 +278,17 @@ def compare(ck, rule, test, carrier, cb, ob, cx, ox):
         ck.evaluations += sub.evaluations
         ck.distinct.update(sub.distinct)
         dropped = [e for e in ox.events if e['kind'] == 'mask-dropped' and e.get('any_masked')]
-        if sub.violations:
-            first = sub.violations[0]
+        # only differing *flags* are the recorded finding; a result of another length, a masked result or a raise on one side is something else
+        other = [v for v in sub.violations if v['key'].rsplit(':', 1)[-1] in ('shape', 'mask', 'raise-differs')]
+        for v in other:
+            ck.violate(rule, v['key'], v['what'])
+        flagdiff = [v for v in sub.violations if v not in other]
+        if flagdiff:
+            first = flagdiff[0]
             ck.violate(rule, f'{fn_key(cb)}:masked-array:masked-element-evaluated',
                        f'{cx.label}: a masked element is treated as a present value '
                        f'({"np.array(masked_array) drops the mask before masked_invalid" if dropped else "flags differ"}); e.g. {first["what"][:300]}',
-                       dict(examples=[v['what'] for v in sub.violations[:3]]))
+                       dict(examples=[v['what'] for v in flagdiff[:3]]))
         else:
             ck.hold(rule, f'{cb.label} ~ {cx.label}')
         return
